@@ -1,5 +1,5 @@
 (* Properties_C14.v — C14: array and symbol-version tables round-trip in the declared byte order. *)
-From ElfioV Require Import Bytes Mem Stream SectionData SectionData_proofs Strings Elfio Table Accessors Tables_proofs Modinfo_table.
+From ElfioV Require Import Bytes Mem Stream SectionData SectionData_proofs Strings Elfio Table Accessors Tables_proofs Modinfo_table Versions_proofs.
 Local Open Scope N_scope.
 
 Theorem C14_array_roundtrip :
@@ -56,6 +56,38 @@ Theorem C14_modinfo_by_field_name :
     exists pre post, l = pre ++ (field, v) :: post /\ Forall (fun a => fst a <> field) pre.
 Proof. exact mod_find_first. Qed.
 Print Assumptions C14_modinfo_by_field_name.
+
+(* version requirements: a section that begins with the encoding of a list of Verneed records (each followed by
+   its Vernaux entries, chained by vn_next / vna_next as linkers emit them), in the file's byte order, is
+   reported record by record as encoded: version and file-name index of the record, hash / flags / other /
+   name index of its first auxiliary entry (the one the accessor reports).  [verneed_get] is this function
+   followed by the two string look-ups in the linked string table. *)
+Theorem C14_verneed_entries_reported :
+  forall e (l : list vneed) (post extra : bytes) no r fuel,
+    Forall vneed_wf l -> nth_optN l no = Some r -> no < lenN fuel ->
+    verneed_core e (Some ((enc_vneeds e l ++ post) ++ extra)) fuel (lenN (enc_vneeds e l ++ post)) no
+    = Ok (Some (vneed_raw r)).
+Proof. exact verneed_table_entry. Qed.
+Print Assumptions C14_verneed_entries_reported.
+
+(* version definitions likewise: flags, version index, hash and the name index of the first Verdaux entry *)
+Theorem C14_verdef_entries_reported :
+  forall e (l : list vdef) (post extra : bytes) no r fuel,
+    Forall vdef_wf l -> nth_optN l no = Some r -> no < lenN fuel ->
+    verdef_core e (Some ((enc_vdefs e l ++ post) ++ extra)) fuel (lenN (enc_vdefs e l ++ post)) no
+    = Ok (Some (vdef_raw r)).
+Proof. exact verdef_table_entry. Qed.
+Print Assumptions C14_verdef_entries_reported.
+
+(* the hypotheses are satisfiable, and the encoding is the gABI one: two requirement records (the first with two
+   auxiliary entries) in big-endian order, read back through the accessor's function *)
+Example C14_verneed_example :
+  let l := [mkVneed 1 17 (mkVaux 110530967 0 3 27) [mkVaux 157882997 0 2 38]; mkVneed 1 49 (mkVaux 221783 2 4 60) []] in
+  Forall vneed_wf l /\
+  firstnN (enc_vneeds MSB l) 16 = [0; 1; 0; 2; 0; 0; 0; 17; 0; 0; 0; 16; 0; 0; 0; 48] /\
+  verneed_core MSB (Some (enc_vneeds MSB l ++ [0])) (0 :: enc_vneeds MSB l) (lenN (enc_vneeds MSB l)) 1
+  = Ok (Some (mkVNraw 1 49 221783 2 4 60)).
+Proof. split; [repeat constructor|]. vm_compute. split; reflexivity. Qed.
 
 Example C14_example : arr_enc MSB 4 305419896 = [18; 52; 86; 120].
 Proof. reflexivity. Qed.
